@@ -51,6 +51,11 @@ typedef struct mzd_t_cache {
 #endif
 
 #define __M4RI_MZD_T_CACHE_MAX 16
+#if defined(M4RI_VERIF) && defined(M4RI_VERIF_MZD_T_CACHE_MAX)
+/* Verification hook: fewer header blocks make the fallback to plain malloc reachable by short operation sequences. */
+#undef __M4RI_MZD_T_CACHE_MAX
+#define __M4RI_MZD_T_CACHE_MAX M4RI_VERIF_MZD_T_CACHE_MAX
+#endif
 static mzd_t_cache_t mzd_cache;
 static mzd_t_cache_t *current_cache = &mzd_cache;
 
